@@ -13,12 +13,16 @@ from worlds.wamp import SERIALIZERS, SessionWorld, StubTransport, session_classe
 
 PROP = "C06"
 MAX_STEPS = 70
-MODES = ["clean", "cut", "cut"]
+MODES = ["clean", "cut", "cut", "clean", "cut", "rejoin"]
 
 CB_ORDER = {"connect": 0, "join": 1, "leave": 2, "disconnect": 3}
 
 
-class World(SessionWorld):
+def World(run, mode="clean"):
+    return RejoinWorld(run) if mode == "rejoin" else MainWorld(run, mode)
+
+
+class MainWorld(SessionWorld):
     PROP = PROP
 
     def __init__(self, run, mode="clean"):
@@ -576,3 +580,194 @@ class World(SessionWorld):
     def sample(self):
         return {"config": {k: (v if k != "beh" else {a: b for a, b in v.items() if b != "return"}) for k, v in self.cfg.items()},
                 "callbacks": self.cbs, "observers": self.obs, "mode": self.mode}
+
+
+class RejoinWorld(SessionWorld):
+    """Several sessions one after the other on ONE transport connection: the application's onLeave() does not
+    disconnect, the application joins again (from inside onLeave() or later).  Each session is judged on its own:
+    HELLO on join(), one onJoin / onLeave per session, GOODBYE at most once per session, a router GOODBYE answered
+    exactly when this side had not started closing *this* session, a leave() on a joined session sends its GOODBYE."""
+
+    PROP = PROP
+
+    def __init__(self, run):
+        SessionWorld.__init__(self, run)
+        self.mode = "rejoin"
+        self.epoch = 0
+        self.state = "init"  # per epoch: hello-wait / joined / ended
+        self.ep = None
+        self.violated = False
+
+    def new_epoch(self):
+        self.epoch += 1
+        self.ep = {"n": self.epoch, "goodbyes": 0, "router_goodbye": False, "session_first": None, "joins": 0, "leaves": 0,
+                   "futs": [], "hello": 0, "leave_called": False}
+
+    def build(self):
+        ch = self.run.ch
+        self.make_reactor()
+        fwamp = session_classes()
+        from autobahn.wamp import message
+        from autobahn.wamp.types import ComponentConfig
+        self.M = message
+        cfg = self.cfg = {"serializer": ch.pick(SERIALIZERS, "serializer"), "sessions": 2 + ch.choose(2, "nsessions"),
+                          "rejoin_in_onLeave": ch.flag("rejoin-from-inside-onLeave", 0.4)}
+        self.t = StubTransport(self, cfg["serializer"], "raise")
+        world = self
+        Base = fwamp.ApplicationSession
+
+        class S(Base):
+            def onJoin(self, details):
+                world.ep["joins"] += 1
+                world.run.log("user-cb", "onJoin", world.epoch)
+
+            def onLeave(self, details):
+                # (no call up: the default would disconnect the transport; this application keeps it and joins again)
+                world.ep["leaves"] += 1
+                world.run.log("user-cb", "onLeave", world.epoch, details.reason)
+                world.state = "ended"
+                if cfg["rejoin_in_onLeave"] and world.epoch < cfg["sessions"]:
+                    world.rejoin(inside=True)
+
+            def onDisconnect(self):
+                world.run.log("user-cb", "onDisconnect")
+        self.session = S(ComponentConfig(realm="realm1"))
+        self.run.log("cfg", "rejoin", sorted(cfg.items()))
+        self.new_epoch()
+        self.call(self.session.onOpen, self.t)
+        self.settle()
+        self.state = "hello-wait"
+        self.ops_left = 3 + ch.choose(8, "nops")
+
+    def on_sent(self, msg):
+        M = self.M
+        if isinstance(msg, M.Goodbye):
+            self.ep["goodbyes"] += 1
+            if self.ep["session_first"] is None:
+                self.ep["session_first"] = not self.ep["router_goodbye"]
+            if self.ep["goodbyes"] > 1:
+                self.run.violate("C06.goodbye-once", "GOODBYE-sent-x%d:session-%d-on-this-transport" % (self.ep["goodbyes"], min(self.epoch, 3)), "")
+        elif isinstance(msg, M.Hello):
+            self.ep["hello"] += 1
+        self.router_inbox.append(msg)
+
+    def rejoin(self, inside=False):
+        self.run.probe("rejoin-on-the-same-transport" + (":from-onLeave" if inside else ""))
+        prev = self.ep
+        self.new_epoch()
+        self.state = "hello-wait"
+        n0 = len(self.t.sent)
+        try:
+            if inside:
+                self.session.join("realm1")
+            else:
+                self.call(self.session.join, "realm1")
+        except Exception as e:  # noqa
+            self.run.violate("C06.callback-order", "join-after-ended-session-raised:%s" % type(e).__name__, repr(e))
+            self.violated = True
+            return
+        if not any(isinstance(m, self.M.Hello) for m in self.t.sent[n0:]):
+            self.run.violate("C06.callback-order", "join-after-ended-session-sent-no-HELLO", "")
+            self.violated = True
+
+    def actions(self):
+        acts = self.base_actions()
+        if self.violated or not self.t.attached or self.t.closing is not None:
+            return acts
+        if self.state == "hello-wait":
+            acts.append((4.0, "router-welcome", self.router_welcome))
+        elif self.state == "joined":
+            if not self.ep["router_goodbye"]:
+                acts.append((2.0, "router-goodbye", self.router_goodbye))
+            if self.ops_left > 0:
+                acts.append((2.0, "app-leave", self.app_leave))
+                acts.append((2.0, "app-call", self.app_call))
+        elif self.state == "ended" and self.epoch < self.cfg["sessions"] and not self.cfg["rejoin_in_onLeave"]:
+            acts.append((3.0, "app-joins-again", lambda: (self.rejoin(), self.settle())))
+        return acts
+
+    def router_welcome(self):
+        from autobahn.wamp import role
+        roles = {"broker": role.RoleBrokerFeatures(), "dealer": role.RoleDealerFeatures()}
+        exc = self.deliver(self.M.Welcome(99000 + self.epoch, roles, realm="realm1", authid="u", authrole="r", authmethod="anonymous"))
+        self.settle()
+        if exc is not None:
+            self.run.violate("C06.phase-gate", "legal-message-rejected:Welcome:%s:session-%d" % (type(exc).__name__, min(self.epoch, 3)), repr(exc))
+            self.violated = True
+            return
+        self.state = "joined"
+        if self.ep["joins"] != 1:
+            self.run.violate("C06.callback-order", "onJoin-x%d-after-WELCOME:session-%d" % (self.ep["joins"], min(self.epoch, 3)), "")
+
+    def app_call(self):
+        self.ops_left -= 1
+        try:
+            f = self.call(self.session.call, "com.example.p%d" % self.ops_left, 1)
+        except Exception as e:  # noqa
+            self.run.violate("C06.fail-fast-after", "call-on-joined-session-raised:%s:session-%d" % (type(e).__name__, min(self.epoch, 3)), repr(e))
+            return
+        self.ep["futs"].append(self.fw.watch(f))
+        self.settle()
+
+    def app_leave(self):
+        self.ops_left -= 1
+        ep = self.ep
+        before = ep["goodbyes"]
+        had_router_goodbye = ep["router_goodbye"]
+        self.run.log("app", "leave", self.epoch)
+        try:
+            self.call(self.session.leave)
+        except Exception as e:  # noqa
+            # (leave() on a session that is already being left is refused: fine)
+            self.run.log("leave-raised", type(e).__name__)
+            if not ep["leave_called"] and not had_router_goodbye and self.state == "joined":
+                self.run.violate("C06.goodbye-once", "leave-on-joined-session-raised:%s:session-%d" % (type(e).__name__, min(self.epoch, 3)), repr(e))
+            return
+        self.settle()
+        if not ep["leave_called"] and not had_router_goodbye and before == 0 and ep is self.ep and ep["goodbyes"] != 1:
+            self.run.violate("C06.goodbye-once", "leave-on-joined-session-sent-no-GOODBYE:session-%d" % min(self.epoch, 3), "")
+        ep["leave_called"] = True
+        if ep["session_first"] and not ep["router_goodbye"]:
+            self.state = "joined"  # (waiting for the router's reply: router-goodbye stays enabled)
+
+    def router_goodbye(self):
+        ep = self.ep
+        ep["router_goodbye"] = True
+        session_first = ep["goodbyes"] > 0
+        before = ep["goodbyes"]
+        futs = list(ep["futs"])
+        exc = self.deliver(self.M.Goodbye("wamp.close.normal" if session_first else "wamp.close.system_shutdown", "bye"))
+        self.settle()
+        tag = "session-%d" % min(ep["n"], 3)
+        if exc is not None:
+            self.run.violate("C06.phase-gate", "legal-GOODBYE-rejected:%s:%s" % (type(exc).__name__, tag), repr(exc))
+            self.violated = True
+            return
+        if session_first:
+            if ep["goodbyes"] != before:
+                self.run.violate("C06.goodbye-once", "answered-own-goodbye-again:%s" % tag, "")
+        elif ep["goodbyes"] != before + 1:
+            self.run.violate("C06.goodbye-once", "peer-GOODBYE-not-answered:%s" % tag, "sent %d" % (ep["goodbyes"] - before))
+        if ep["leaves"] != 1:
+            self.run.violate("C06.callback-order", "onLeave-x%d-after-goodbye-exchange:%s" % (ep["leaves"], tag), "")
+        # (requests pending across a session end are not judged in this mode: failing them is the work of the default
+        # onLeave(), which this application replaces in order to keep the transport - the main modes judge that clause)
+        if ep is self.ep:
+            self.state = "ended"
+
+    def check_step(self):
+        SessionWorld.check_step(self)
+        for where, exc in self.escaped:
+            self.run.probe("escaped-late:%s" % type(exc).__name__)
+        self.escaped = []
+
+    def final(self):
+        self.check_step()
+        if self.epoch >= 2 and self.ep["joins"]:
+            self.run.probe("second-session-joined-on-the-same-transport")
+
+    def nontrivial(self):
+        return self.epoch >= 2
+
+    def sample(self):
+        return {"config": {k: repr(v) for k, v in self.cfg.items()}, "sessions": self.epoch, "state": self.state}
